@@ -96,7 +96,10 @@ def finish(ctx: Ctx, floor: int, explanation: str, rule_text: str, evidence_path
             else:
                 viol.append(o)
     n = len(ctx.obligations)
-    if n < floor:
+    if n < floor and not viol:
+        # fewer instances than confirmed by hand and nothing to report: a rule lost its anchors and would pass vacuously.
+        # (With a violation at hand the violation is the verdict -- a construct that deviates far enough can also take the
+        # obligations that were attached to it out of the count.)
         raise AnalysisError(f"only {n} rule instances matched, floor is {floor} (a rule lost its anchors)")
     discharged = sum(1 for o in ctx.obligations if o.ok)
     distinct = len({(o.rule, o.instance) for o in ctx.obligations})
